@@ -17,11 +17,96 @@ SUBSCHEMA_KEYS = ("items", "additionalProperties")
 SUBSCHEMA_MAPS = ("properties",)
 SUBSCHEMA_LISTS = ("oneOf", "prefixItems", "anyOf", "allOf")
 
-TC = Draft202012Validator.TYPE_CHECKER.redefine_many({
-    "integer": lambda c, i: type(i) is int,
-    "number": lambda c, i: type(i) is float,
-})
-PyTyped = extend(Draft202012Validator, type_checker=TC)
+LINE_TERMINATORS = "\n\r\u2028\u2029"
+
+
+def ecma(p: str) -> str:
+    """Python `re` source with ECMA-262 meaning for `$` (end of input) and `.` (no line terminator)."""
+    out, i, in_class = [], 0, False
+    while i < len(p):
+        c = p[i]
+        if c == "\\" and i + 1 < len(p):
+            out.append(p[i:i + 2])
+            i += 2
+            continue
+        if in_class:
+            if c == "]":
+                in_class = False
+            out.append(c)
+        elif c == "[":
+            in_class = True
+            out.append(c)
+        elif c == "$":
+            out.append(r"\Z")
+        elif c == ".":
+            out.append("[^\n\r\u2028\u2029]")
+        else:
+            out.append(c)
+        i += 1
+    return "".join(out)
+
+
+def search(p: str, s: str) -> bool:
+    import re
+    return re.search(ecma(p), s) is not None
+
+
+def pattern_kw(validator, patrn, instance, schema):
+    from jsonschema.exceptions import ValidationError
+    if isinstance(instance, str) and not search(patrn, instance):
+        yield ValidationError("%r does not match %r" % (instance, patrn))
+
+
+def py_unique_kw(validator, uI, instance, schema):
+    from jsonschema.exceptions import ValidationError
+    if uI and isinstance(instance, list):
+        for i in range(len(instance)):
+            for j in range(i + 1, len(instance)):
+                if type(instance[i]) is type(instance[j]) and instance[i] == instance[j]:
+                    yield ValidationError("non-unique (same type and Python ==)")
+                    return
+
+
+NOTBLANK = r"^(?!\s*$).+"
+
+
+def relax(s, how, user_patterns):
+    """One relaxed reading of the schema (used only to classify a disagreement)."""
+    if isinstance(s, list):
+        return [relax(x, how, user_patterns) for x in s]
+    if not isinstance(s, dict):
+        return s
+    out = {}
+    for k, v in s.items():
+        if how == "anyof" and k == "oneOf":
+            out["anyOf"] = relax(v, how, user_patterns)
+        elif how == "notblank" and k == "pattern" and v == NOTBLANK:
+            out[k] = r"^(?!\s*$)[\s\S]+"
+        elif how == "anchored" and k == "pattern" and v in user_patterns:
+            out[k] = "^(?:" + v + ")"
+        else:
+            out[k] = relax(v, how, user_patterns)
+    return out
+
+
+def type_kw(validator, types, instance, schema):
+    """`type` with numbers typed as Python types them: integer = int, number = float, bool neither.
+    (Only the `type` keyword changes; numeric keywords still apply to every JSON number.)"""
+    from jsonschema.exceptions import ValidationError
+    ts = [types] if isinstance(types, str) else list(types)
+
+    def is_t(t):
+        if t == "integer":
+            return type(instance) is int
+        if t == "number":
+            return type(instance) is float
+        return validator.is_type(instance, t)
+    if not any(is_t(t) for t in ts):
+        yield ValidationError("%r is not of type %r" % (instance, types))
+
+
+PyTyped = extend(Draft202012Validator, validators={"pattern": pattern_kw, "type": type_kw})
+PyTypedPyUnique = extend(Draft202012Validator, validators={"pattern": pattern_kw, "type": type_kw, "uniqueItems": py_unique_kw})
 
 
 def denull(s):
@@ -58,28 +143,36 @@ def main():
                                  "keyword": str(getattr(e, "validator", "")),
                                  "message": str(getattr(e, "message", e))[:300]}
         if j.get("instances"):
-            doc = denull(schema)
-            if j.get("named"):
-                name, ref = j["named"]
-                # place the schema where ref_location says it is
-                parts = [p for p in ref.lstrip("#").split("/") if p]
-                root = {}
-                cur = root
-                for p in parts:
-                    cur[p] = {}
-                    cur = cur[p]
-                cur[name] = doc
-                root["$ref"] = ref + name
-                doc = root
-            try:
-                ev = PyTyped(doc)
-                for x in j["instances"]:
-                    try:
-                        r["results"].append(ev.is_valid(x))
-                    except Exception as e:
-                        r["results"].append("error: %r" % (e,))
-            except Exception as e:
-                r["results"] = ["error: %r" % (e,)] * len(j["instances"])
+            r["variants"] = {}
+            for how in ["strict"] + list(j.get("variants", [])):
+                sch = schema if how in ("strict", "pyunique") else relax(schema, how, j.get("user_patterns", []))
+                doc = denull(sch)
+                if j.get("named"):
+                    name, ref = j["named"]
+                    # place the schema where ref_location says it is
+                    parts = [p for p in ref.lstrip("#").split("/") if p]
+                    root = {}
+                    cur = root
+                    for p in parts:
+                        cur[p] = {}
+                        cur = cur[p]
+                    cur[name] = doc
+                    root["$ref"] = ref + name
+                    doc = root
+                out = []
+                try:
+                    ev = (PyTypedPyUnique if how == "pyunique" else PyTyped)(doc)
+                    for x in j["instances"]:
+                        try:
+                            out.append(ev.is_valid(x))
+                        except Exception as e:
+                            out.append("error: %r" % (e,))
+                except Exception as e:
+                    out = ["error: %r" % (e,)] * len(j["instances"])
+                r["variants"][how] = out
+            r["results"] = r["variants"]["strict"]
+        if j.get("searches"):
+            r["searches"] = [search(p, t) for p, t in j["searches"]]
         res.append(r)
     json.dump(res, sys.stdout)
 
